@@ -99,7 +99,8 @@ fn main() {
             let w = std::sync::Arc::new(World::new(seed, 3, 3));
             let mut rng = Rng::new(seed);
             let scheds = args.kv.get("schedules").map(|p| read_schedules(p)).unwrap_or_default();
-            actor::run(w, seed, &mut rng, scheds, args.num("n", 60) as usize, &dir, &mut trace, &mut sum);
+            actor::run(w.clone(), seed, &mut rng, scheds, args.num("n", 60) as usize, &dir, &mut trace, &mut sum);
+            actor::run_concurrent(w, seed, &mut rng, args.num("conc", 0) as usize, &mut trace, &mut sum);
         }
         "codec" => {
             let w = World::new(seed, 3, 3);
